@@ -15,8 +15,11 @@ from . import core
 from .core import cq_list, cq_nat, cq_str
 
 THEOREMS = ["C18_bijection", "C18_expand_var_names", "C18_one_based", "C18_layout", "C18_attributes",
-            "C18_expand_total", "C18_attributes_refuted", "C18_outputs_in_place", "C18_delay_order",
-            "C18_residual_partial", "C18_example"]
+            "C18_expand_total", "C18_carveout_exact", "C18_no_component_array_total",
+            "C18_lowrank_list_refuted", "C18_lowrank_dm_refuted", "C18_attributes_refuted",
+            "C18_attributes_refuted_dm", "C18_outputs_in_place", "C18_delay_order",
+            "C18_residual", "C18_residual_matrix", "C18_residual_names", "C18_residual_example",
+            "C18_metadata_rows_partial", "C18_example"]
 
 GROUPS = ["states", "der_states", "alg_states", "inputs", "parameters", "constants"]
 ATTRS = ["value", "min", "max", "start", "fixed", "nominal"]          # CASADI_ATTRIBUTES order
@@ -427,17 +430,30 @@ def gen_model(rng, flavour):
     def is_real_var(f):
         return f["decl"]["type"] == "Real" and len(tensor_dims(f["path"])) <= 2
 
+    # every equation is produced as (Modelica text, mexpr AST over the UNEXPANDED symbols); the AST feeds the
+    # matrix-level Coq model (Model/C18_matrix.v); None = outside the modelled expression subset (for-loops)
+    def uname_of(f):
+        return ".".join(n for n, _ in f["path"])
+
     def elem_ref(f, idx):
-        return spec_name(f["path"], idx)
+        dims = tensor_dims(f["path"])
+        if not dims:
+            ast = ["sym", uname_of(f)]
+        elif len(dims) == 1:
+            ast = ["slice", ["var", uname_of(f)], idx[0], 1, 0, 1]
+        else:
+            ast = ["slice", ["var", uname_of(f)], idx[0], 1, idx[1], 1]
+        return spec_name(f["path"], idx), ast
 
     def whole_ref(f):
         # only when no component on the path is an array: then the dotted name denotes the array
         if any(gd for _, gd in f["path"][:-1]):
             return None
-        return ".".join(n for n, _ in f["path"])
+        return uname_of(f), (["var", uname_of(f)] if tensor_dims(f["path"]) else ["sym", uname_of(f)])
 
     reals = [f for f in flat if is_real_var(f)]
     arrays = [f for f in reals if tensor_dims(f["path"])]
+    KA = ("ka", ["sym", "ka"])
 
     def rand_elem():
         f = r.choice(reals)
@@ -445,16 +461,28 @@ def gen_model(rng, flavour):
         return elem_ref(f, [r.randrange(d) for d in dims])
 
     def small():
-        return lit(r.choice([2, 3, 5, 0.5, 1.5, 4]))
+        k = r.choice([2, 3, 5, 4, 7, 6])
+        return lit(k), ["const", k]
 
     def scalar_expr():
         x = r.random()
-        a, b = rand_elem(), rand_elem()
+        a, b, c = rand_elem(), rand_elem(), small()
         if x < 0.3:
-            return "%s * %s + %s" % (a, small(), b)
+            return "%s * %s + %s" % (a[0], c[0], b[0]), ["add", ["emul", a[1], c[1]], b[1]]
         if x < 0.6:
-            return "%s * %s - %s" % (a, b, small())
-        return "%s + %s * %s" % (small(), a, b)
+            return "%s * %s - %s" % (a[0], b[0], c[0]), ["sub", ["emul", a[1], b[1]], c[1]]
+        return "%s + %s * %s" % (c[0], a[0], b[0]), ["add", c[1], ["emul", a[1], b[1]]]
+
+    eq_ast, ieq_ast = [], []
+
+    def add_eq(lhs, rhs, initial=False):
+        (desc["ieqs"] if initial else desc["eqs"]).append("%s = %s;" % (lhs[0], rhs[0]))
+        (ieq_ast if initial else eq_ast).append(None if lhs[1] is None or rhs[1] is None else ["sub", lhs[1], rhs[1]])
+
+    def new_delay(shape):
+        k = len(desc["delays"])
+        desc["delays"].append(shape)
+        return ["var", "_pymoca_delay_%d" % k]
 
     unknowns = [f for f in flat if is_real_var(f) and f["decl"]["prefix"] in ("", "output")
                 and len(f["path"]) == 1]
@@ -462,24 +490,26 @@ def gen_model(rng, flavour):
         d = f["decl"]
         dims = d["dims"]
         name = d["name"]
+        me = whole_ref(f)
         same = [w for w in arrays if tensor_dims(w["path"]) == dims and whole_ref(w) and w is not f]
         x = r.random()
         if not dims:
+            e = scalar_expr()
             if flavour == "delay" and r.random() < 0.4:
-                desc["eqs"].append("%s = delay(%s, dt);" % (name, scalar_expr()))
-                desc["delays"].append([1, 1])
+                add_eq(me, ("delay(%s, dt)" % e[0], new_delay([1, 1])))
             else:
-                desc["eqs"].append("%s = %s;" % (name, scalar_expr()))
+                add_eq(me, e)
             continue
         if flavour == "delay" and same and x < 0.5:
-            w = whole_ref(r.choice(same))
-            desc["eqs"].append("%s = delay(%s * %s * ka, dt);" % (name, small(), w))
-            desc["delays"].append(dims + [1] if len(dims) == 1 else dims)
+            w, c = whole_ref(r.choice(same)), small()
+            add_eq(me, ("delay(%s * %s * ka, dt)" % (c[0], w[0]), new_delay(dims + [1] if len(dims) == 1 else dims)))
         elif same and x < 0.25:
-            desc["eqs"].append("%s = %s * %s + %s;" % (name, small(), whole_ref(r.choice(same)),
-                                                     whole_ref(r.choice(same))))
+            c, w1, w2 = small(), whole_ref(r.choice(same)), whole_ref(r.choice(same))
+            add_eq(me, ("%s * %s + %s" % (c[0], w1[0], w2[0]), ["add", ["scale", c[1], w1[1]], w2[1]]))
         elif same and x < 0.4:
-            desc["eqs"].append("der(%s) = %s - %s * ka;" % (name, whole_ref(r.choice(same)), name))
+            w = whole_ref(r.choice(same))
+            add_eq(("der(%s)" % name, ["var", "der(%s)" % name]),
+                   ("%s - %s * ka" % (w[0], name), ["sub", w[1], ["scale", KA[1], me[1]]]))
         elif len(dims) == 1 and x < 0.55:
             mats = [w for w in arrays if len(tensor_dims(w["path"])) == 2 and whole_ref(w)
                     and tensor_dims(w["path"])[0] == dims[0]]
@@ -487,36 +517,43 @@ def gen_model(rng, flavour):
             pair = [(m, v) for m in mats for v in vecs if tensor_dims(m["path"])[1] == tensor_dims(v["path"])[0]]
             if pair:
                 m, v = r.choice(pair)
-                desc["eqs"].append("%s = %s * %s;" % (name, whole_ref(m), whole_ref(v)))
+                m, v = whole_ref(m), whole_ref(v)
+                add_eq(me, ("%s * %s" % (m[0], v[0]), ["mtimes", m[1], v[1]]))
             else:
                 for i in range(dims[0]):
-                    desc["eqs"].append("%s[%d] = %s;" % (name, i + 1, scalar_expr()))
+                    add_eq(elem_ref(f, [i]), scalar_expr())
         elif len(dims) == 2 and x < 0.55:
             tr = [w for w in arrays if tensor_dims(w["path"]) == dims[::-1] and whole_ref(w) and w is not f]
             if tr:
-                desc["eqs"].append("%s = transpose(%s) * %s;" % (name, whole_ref(r.choice(tr)), small()))
+                w, c = whole_ref(r.choice(tr)), small()
+                add_eq(me, ("transpose(%s) * %s" % (w[0], c[0]), ["scale", c[1], ["trans", w[1]]]))
             else:
                 for idx in row_major(dims):
-                    desc["eqs"].append("%s = %s;" % (elem_ref(f, idx), scalar_expr()))
+                    add_eq(elem_ref(f, idx), scalar_expr())
         elif len(dims) == 1 and x < 0.7 and dims[0] >= 2:
             vecs = [w for w in arrays if tensor_dims(w["path"]) == dims and whole_ref(w) and w is not f]
+            c = small()
             if vecs:
                 desc["eqs"].append("for i in 1:%d loop %s[i] = %s * %s[i] + ka; end for;"
-                                   % (dims[0], name, small(), whole_ref(r.choice(vecs))))
+                                   % (dims[0], name, c[0], whole_ref(r.choice(vecs))[0]))
             else:
-                desc["eqs"].append("for i in 1:%d loop %s[i] = %s * i + ka; end for;" % (dims[0], name, small()))
+                desc["eqs"].append("for i in 1:%d loop %s[i] = %s * i + ka; end for;" % (dims[0], name, c[0]))
+            eq_ast.append(None)
         else:
             for idx in row_major(dims):
-                desc["eqs"].append("%s = %s;" % (elem_ref(f, idx), scalar_expr()))
+                add_eq(elem_ref(f, idx), scalar_expr())
         if r.random() < 0.25:
             idx = [r.randrange(k) for k in dims]
-            desc["ieqs"].append("%s = %s;" % (elem_ref(f, idx), scalar_expr()))
+            add_eq(elem_ref(f, idx), scalar_expr(), initial=True)
+    # the flattened model lists the equations of component classes as well (order not predicted here)
+    if all(a is not None for a in eq_ast) and not any(c["eqs"] for c in desc["classes"]):
+        desc["eq_ast"] = eq_ast
     return desc
 
 
 # ---- what the parent prescribes to the child ------------------------------------------------
 def expectations(desc, rng):
-    """expected scalar names per unexpanded symbol, the renaming tables and distinct dyadic values"""
+    """expected scalar names per unexpanded symbol, the renaming tables and distinct integer values"""
     flat = flatten_desc(desc)
     exp = {}
     for f in flat:
@@ -535,7 +572,7 @@ def expectations(desc, rng):
         all_names += e["names"]
     ks = list(range(1, 8 * len(all_names) + 8))
     rng.shuffle(ks)
-    vals = {n: ks[i] / 8.0 for i, n in enumerate(sorted(set(all_names)))}
+    vals = {n: float(ks[i]) for i, n in enumerate(sorted(set(all_names)))}   # distinct integers (exact in binary64)
     umap = {}
     for un, e in exp.items():
         dims = e["dims"]
@@ -607,8 +644,13 @@ def defect_tag(res):
                 e = v["attrs"][a]
                 if e["k"] == "list" and attr_rank(e) < len(full):
                     kinds.add("list")
-                if e["k"] in ("dm", "mx") and e["shape"][0] * e["shape"][1] > 1 and len(full) >= 2 \
-                        and e["shape"][0] * e["shape"][1] < _prod(full):
+                # DM / MX array of the member's OWN shape (n -> n x 1, n x m -> n x m) and not of the full shape:
+                # attribute rank < index rank, exactly `lowrank_in_component_array` of Proofs/C18_total.v
+                own = [d for d in ms[-1] if d is not None]
+                own_shape = [own[0], 1] if len(own) == 1 else (own if len(own) == 2 else None)
+                full_shape = [full[0], 1] if len(full) == 1 else (full if len(full) == 2 else None)
+                if e["k"] in ("dm", "mx") and not (e["k"] == "mx" and e["shape"] == [1, 1]) \
+                        and own_shape is not None and e["shape"] == own_shape and e["shape"] != full_shape:
                     kinds.add(e["k"])
     if len(kinds) == 1:
         return "%s-attribute-in-component-array" % kinds.pop()
@@ -868,6 +910,60 @@ def encode_case(case, res):
                                  cq_list([cq_str(s) for s in res["U_delay_states"]]), obs)
 
 
+def cq_mexpr(a):
+    k = a[0]
+    if k == "var":
+        return "(MVar %s)" % cq_str(a[1])
+    if k == "sym":
+        return "(MSym %s)" % cq_str(a[1])
+    if k == "const":
+        return "(MConst (mk_zmat 1%%nat 1%%nat [(%d)%%Z]))" % a[1]
+    if k in ("add", "sub", "emul", "mtimes", "scale"):
+        return "(%s %s %s)" % ({"add": "MAdd", "sub": "MSub", "emul": "MEmul", "mtimes": "MMtimes",
+                                "scale": "MScale"}[k], cq_mexpr(a[1]), cq_mexpr(a[2]))
+    if k in ("trans", "neg"):
+        return "(%s %s)" % ({"trans": "MTrans", "neg": "MNeg"}[k], cq_mexpr(a[1]))
+    if k == "slice":
+        return "(MSlice %s %s %s %s %s)" % (cq_mexpr(a[1]), cq_nat(a[2]), cq_nat(a[3]), cq_nat(a[4]), cq_nat(a[5]))
+    raise ValueError(k)
+
+
+def as_int(x):
+    x = fnum(x)
+    if x != x or abs(x) == float("inf") or abs(x - round(x)) > 1e-6 or abs(x) > 2 ** 52:
+        raise ValueError("residual entry %r is not an exact integer" % x)
+    return int(round(x))
+
+
+def encode_residual_case(case, res):
+    """matrix-model tie: the unexpanded point, the equations as mexpr, both real dae residuals"""
+    asts = case["desc"].get("eq_ast")
+    if not asts or "U_res" not in res or "E_res" not in res or "dae" not in res["U_res"] or "dae" not in res["E_res"]:
+        return None
+    vals, umap = case["vals"], case["umap"]
+    vs, sc = [], []
+    for g in GROUPS:
+        for v in res["U"][g]:
+            if v["tensor"]:
+                return None
+            n1, n2 = v["shape"]
+            if v["name"] in umap and "rows" in umap[v["name"]]:
+                rows = umap[v["name"]]["rows"]
+                data = [as_int(vals[rows[i][j]]) for j in range(n2) for i in range(n1)]
+                vs.append("(%s, %s, (%s, %s), %s)" % (cq_str(v["name"]), cq_shape(v["mshape"]), cq_nat(n1), cq_nat(n2),
+                                                     cq_list(["(%d)%%Z" % z for z in data])))
+            else:
+                sc.append("(%s, (%d)%%Z)" % (cq_str(v["name"]), as_int(vals[v["name"]])))
+    return "(%s, %s, %s, %s, %s)" % (
+        cq_list(vs), cq_list(sc), cq_list([cq_mexpr(a) for a in asts]),
+        cq_list(["(%d)%%Z" % as_int(x) for x in res["U_res"]["dae"]]),
+        cq_list(["(%d)%%Z" % as_int(x) for x in res["E_res"]["dae"]]))
+
+
+PREAMBLE_RES = ("From Coq Require Import String List ZArith.\nFrom PV Require Import Model.C18_expand Model.C18_matrix.\n"
+                "Import ListNotations.\nOpen Scope string_scope.\n")
+RES_TYPE = "list (string * vshape * (nat * nat) * list Z) * list (string * Z) * list mexpr * list Z * list Z"
+
 PREAMBLE = ("From Coq Require Import String List ZArith.\nFrom PV Require Import Model.C18_expand.\n"
             "Import ListNotations.\nOpen Scope string_scope.\n")
 CASE_TYPE = "list (list uvar) * list string * list string * obs"
@@ -1062,6 +1158,33 @@ def run(ctx):
                         "input": {"src": cases[i]["src"], "desc": cases[i]["desc"]},
                         "observed": summarise(results[i])}, no_input=True)
 
+    # matrix-model tie: Model/C18_matrix.v must reproduce both real dae residuals from the equations
+    enc_r, idx_r = [], []
+    for i, (c, r) in enumerate(zip(cases, results)):
+        try:
+            e = encode_residual_case(c, r) if "U" in r else None
+        except (ValueError, KeyError) as ex:
+            ctx.notes.setdefault("residual_not_encoded", []).append("%d: %s" % (i, ex))
+            e = None
+        if e is not None:
+            enc_r.append(e)
+            idx_r.append(i)
+    dist["residual_model_cases"] = len(enc_r)
+    t2 = _t.time()
+    bad_r = core.coq_eval_cases(ctx, "res", PREAMBLE_RES, RES_TYPE, enc_r, "check_residual", shard=ctx.scaled(12, 60)) \
+        if enc_r else []
+    ctx.notes["phase_s"]["coq_residual"] = round(_t.time() - t2, 1)
+    mism_r = None if bad_r is None else [idx_r[j] for j in bad_r]
+    ctx.oblige("correspondence:matrix-model-vs-dae-residuals", mism_r == [] and len(enc_r) * 5 >= len(cases) - len(skipped) - 40,
+               "mismatching cases: %s; encoded %d of %d" % (mism_r if mism_r is None else mism_r[:10], len(enc_r), len(cases)))
+    if mism_r and not ctx.violations:
+        i = mism_r[0]
+        core.violation(ctx, "correspondence-broken",
+                       {"correspondence": "Model/C18_matrix.v check_residual vs dae_residual_function (unexpanded and expanded)",
+                        "input": {"src": cases[i]["src"], "desc": cases[i]["desc"]},
+                        "observed": {"U_dae": results[i]["U_res"]["dae"], "E_dae": results[i]["E_res"]["dae"]}},
+                       no_input=True)
+
     def still_fails(e):
         i = known_at.get(e["tag"])
         if i is None:
@@ -1087,8 +1210,10 @@ def run(ctx):
         "attributes are evaluated at the same prescribed point in both models",
         "3-D arrays (_MTensor): names, order and attributes are checked; they cannot occur in equations of the "
         "supported subset, so no residual is compared for those models",
-        "C18_residual is proved for an element-wise expression language only (C18_residual_partial); CasADi's "
-        "substitute/vec/vertsplit on matrix expressions is covered by the residual oracle, not by a theorem",
+        "C18_residual is proved for the matrix expression language of Model/C18_matrix.v (element-wise + - .*, scalar x "
+        "array, mtimes, transpose, slices, reshape/vec/vertsplit) over integers; that model is tied to CasADi by "
+        "check_residual on the generated models whose equations lie in the subset (no for-loop, no class equations); "
+        "for-loop map nodes, if_else and function calls are covered by the numeric residual oracle only",
     ]
 
 
